@@ -80,6 +80,44 @@ for k,(b,n,h) in N3.items():
     m['check_result_quick']=res.get(k,m.get('check_result_quick',''))[:200]
     json.dump(m,open(p,'w'),indent=1,ensure_ascii=False)
 
+
+# ---- round 3 (dimensions a harness rarely varies)
+N4={
+"C03-r3-1":("process-wide spelling->constant cache shared by v2 GetAccessVector and v3 GetAttackVector without a version namespace","the v2 package used before v3 in the same process: every later v3 AV:N decodes as Adjacent","missed first (each check used one CVSS version only); caught after the cross-version prelude (C01-C03 decode every v2 base vector first, C04/C05 v3 vectors)"),
+"C03-r3-2":("ring cache of 16384 decoded vectors whose recycled slots stay in the index","a vector decoded again after more than 16384 other distinct vectors returns another vector's metrics","missed first (no vector was decoded twice far apart); caught after C03 decodes the first 4000 vectors of its decode phase again at the end (C15 revisits its first sources too)"),
+"C03-r3-3":("effective-scope memo taken when the MS token is decoded","an explicit MS:X token before the S:C token","caught by the first version of the check (random token orders)"),
+"C07-r3-1":("value looked up by decoding one rune and truncating it to a byte","an AV/MAV value that is one multi-byte rune congruent mod 256 to a valid code (U+014E for N)","missed first; caught after rune-level relatives of every character (U+0100+c, U+0400+c, U+10000+c, fullwidth form, percent escape) were added to the character edits"),
+"C07-r3-2":("field table with an 8-bit length","a field followed by exactly 256*k further bytes","caught by the first version of the check (length sweep)"),
+"C07-r3-3":("duplicate marks drawn from a 16-bit process-wide call serial","every 65536th temporal/environmental Decode of the process rejects a valid vector with optional metrics","missed first (valid vectors were decoded in one early phase only); caught after valid vectors were interleaved through the whole string workload"),
+"C08-r3-1":("fullwidth forms folded before decoding","a valid vector with characters replaced by their exact fullwidth forms","missed first; caught with the rune-level relatives"),
+"C08-r3-2":("order tracked while decoding, with a hole for a contiguous E/RL/RC block inside the environmental group","the complete temporal group moved as a block to after the 1st..4th environmental token","caught (barely: one violation) by the first version; now systematically by the contiguous block moves added to the token edits"),
+"C08-r3-3":("percent-unescaping before decoding","a character written as its %XX escape","missed first; caught with the percent-escape relatives"),
+"C11-r3-1":("v2 strips a leading BOM before splitting but compares the original","a BOM-prefixed otherwise valid v2 vector is reported as misordered","caught by the first version of the check"),
+"C11-r3-2":("incompleteness error wraps ErrMisordered as cause","an input that is both incomplete and misordered matches two sentinels","caught by the first version of the check"),
+"C11-r3-3":("strings.SplitN(vector, \"/\", 256)","a valid vector followed by 257+ unknown well-formed tokens is reported as invalid vector","caught by the first version of the check (length sweep)"),
+"C12-r3-1":("field scanner with a 16-bit cursor","a vector longer than 65536 bytes whose fields before that offset are all well-formed panics","caught by the first version of the check (multi-megabyte inputs)"),
+"C12-r3-2":("error-context abbreviation walks forward over continuation bytes without a bound","a rejected field longer than 51 bytes whose last 16 bytes are all 0x80..0xBF panics","missed first; caught after runs of continuation / lead bytes at the end, start and middle of fields of several lengths were added to the length sweep"),
+"C12-r3-3":("v2 IsEmpty judged from IsValid of the group's metrics","ALL metrics of a decoded group reset invalid at once: GetError nil, non-zero score","missed first (fields were reset one at a time); caught after whole groups, all base metrics and random pairs/triples are reset together"),
+"C15-r3-1":("language fallback through a language.Matcher built by ranging over the name map","region-tagged tags of non-Latin-script languages (ko-KR, zh-TW, ru-RU): Japanese with probability 1/8 per lookup","missed first (no such tag among the report languages of C15); caught after ko-KR, zh-TW, ru-RU, ar-EG, und-Hans-JP were added (C18 catches it too)"),
+"C15-r3-2":("name tables recycled by a finalizer on the outermost object","only the BaseMetrics()/TemporalMetrics() view is kept, the owner is dropped and a GC runs: the view's Encode changes","missed first; caught after C15 keeps views, drops their owners, forces collections and observes the views again"),
+"C15-r3-3":("one-entry environmental score memo keyed by object address and environmental values","the last-scored object is collected and a new object at the same address decodes a vector with the same environmental part","caught by the first version of the check (half of the histories run under forced collections since round 2)"),
+"C16-r3-1":("report constructors append the resolved language to the caller's option slice","options passed as a sub-slice with spare capacity of an array shared between goroutines","missed first; caught after C16 builds reports from sub-slices of one shared option array"),
+"C16-r3-2":("template cache deletes from its map under the read lock once 256 entries are reached","more than 256 distinct templates in the process, then concurrent exports with an uncached one","missed first (ten template texts); caught after every fifth export carries a never-seen text"),
+"C16-r3-3":("output normalised to NFC through one shared stateful transformer","templates whose text is not NFC-normal exported concurrently","missed first; caught after a template with decomposed characters joined C16's set (and such literals C19's grammar)"),
+"C17-r3-1":("language tags resolved by compact index without the exact flag","ja-u-ca-japanese, ja-x-internal, ja-hepburn, ja-US ... produce Japanese","NOT CLAIMED: these tags' language IS Japanese; the statement fixes the result only for tags whose language is neither English nor Japanese and leaves variants of English/Japanese unspecified"),
+"C17-r3-2":("embedded *BaseReport taken from a free list and returned by a finalizer on the owner","only the embedded lower-level report is kept, the owner is collected, a later report is built","missed first; caught after C17 keeps exactly one embedded part per report, drops the rest, forces collections and re-reads"),
+"C17-r3-3":("templates that look like an HTML document rendered with html/template","field values in URL / unquoted attribute / script contexts of a template starting with <!doctype html> or <html","a template-export defect (C19's property): missed by C17 (which does not export), caught by C19 after HTML-document-looking templates were added to its grammar"),
+"C19-r3-1":("*os.File fast path sized from Stat() but filled from the current offset","a regular file whose read position is past the start: k trailing NUL bytes","missed first (no *os.File readers); caught after files (at offset 0 and k), positioned strings.Readers, io.Pipe, bufio, MultiReader and LimitReader joined the reader shapes"),
+"C19-r3-2":("rendered output normalised to NFC","literal text that is not NFC-normal (decomposed accents, OHM SIGN, a combining mark right after an action)","missed first; caught after such literals were added to the template grammar"),
+"C19-r3-3":("up-front unknown-field validator that ignores short-circuit and/or","a missing field in an argument position text/template never evaluates","missed first; caught after missing fields in unevaluated positions (or/and, dead branches) were added to the grammar"),
+}
+for k,(b,n,h) in N4.items():
+    p='/verif/seeded/%s/meta.json'%k
+    if not os.path.exists(p): print("missing",k); continue
+    m=json.load(open(p)); m['breaks_by']=b; m['needs_to_manifest']=n; m['history']=h; m['round']=3
+    m['check_result_quick']=res.get(k,m.get('check_result_quick',''))[:200]
+    json.dump(m,open(p,'w'),indent=1,ensure_ascii=False)
+
 # README
 rows=[]
 for d in sorted(glob.glob('/verif/seeded/C*-*/')):
@@ -89,7 +127,7 @@ for d in sorted(glob.glob('/verif/seeded/C*-*/')):
     json.dump(m,open(d+'meta.json','w'),indent=1,ensure_ascii=False)
     rows.append((name,m['property'],m.get('round',1),res.get(name,'?'),m.get('history','')))
 out=["# Seeded changes","",
-"Round 1: forty changes, two per property; round 2: sixty subtler ones (three per property) (narrow inputs, multi-step histories, interleavings, cooperating sites). Each was written by an independent sub-agent that was given only the property text and its own scratch worktree (nothing from /verif), and confirmed here with `seeded/confirm.sh` in a scratch worktree: it applies, compiles, the unedited repository suite passes with it, its demonstration fails with it and passes without it. `seeded/rerun.sh` re-runs all of them against the check of their property (RESULTS.txt). `agent-notes.md` in each directory is the author's description of the changes of that property/round; `meta.json` says what the change breaks, what it needs in order to manifest, what was run and the history of the check against it.","",
+"Round 1: forty changes, two per property; round 2: sixty subtler ones (three per property); round 3: twenty-seven that look for dimensions a harness rarely varies (C03, C07, C08, C11, C12, C15, C16, C17, C19) (narrow inputs, multi-step histories, interleavings, cooperating sites). Each was written by an independent sub-agent that was given only the property text and its own scratch worktree (nothing from /verif), and confirmed here with `seeded/confirm.sh` in a scratch worktree: it applies, compiles, the unedited repository suite passes with it, its demonstration fails with it and passes without it. `seeded/rerun.sh` re-runs all of them against the check of their property (RESULTS.txt). `agent-notes.md` in each directory is the author's description of the changes of that property/round; `meta.json` says what the change breaks, what it needs in order to manifest, what was run and the history of the check against it.","",
 "| change | property | round | quick check of its property | history |","|---|---|---|---|---|"]
 for name,prop,rnd,r,h in rows:
     v="CAUGHT" if "CAUGHT" in r else ("MISSED" if "MISSED" in r else r[:30])
